@@ -253,8 +253,11 @@ def _s1c(program, res):
     d = depsmod.Deps(g, f.params(), named_locals={subsql})
     node_p = [p for p in f.params() if p != "self"][0]
     # store declared_term_dependencies[ci] = X in the loop over computed ops
+    # the dependency dict, by role: the value handed to NearSQLUnaryStep(declared_term_dependencies=…)
+    dtd = {unparse(kw.value) for c in ast.walk(f.node) if isinstance(c, ast.Call) for kw in c.keywords
+           if kw.arg == "declared_term_dependencies" and isinstance(kw.value, ast.Name)} or {"declared_term_dependencies"}
     stores = [n for n in g.stmt_nodes(("stmt",)) if isinstance(n.stmt, ast.Assign) and isinstance(n.stmt.targets[0], ast.Subscript)
-              and unparse(n.stmt.targets[0].value) == "declared_term_dependencies"]
+              and unparse(n.stmt.targets[0].value) in dtd]
     op_stores = [n for n in stores if any(isinstance(b.stmt, ast.For) and "subops" in unparse(b.cond) for b, _l in g.lexical_guards(n))]
     if not op_stores:
         raise AnalysisError("extend_to_near_sql: declared_term_dependencies store for computed terms not found")
@@ -349,7 +352,13 @@ def _s2(program, res):
     g = cfgmod.build(b.node)
     loops = [n for n in g.stmt_nodes(("iter",))]
     order = [unparse(n.cond) for n in loops]
-    if order[:2] == ["sequence1", "sequence2"]:
+    # the two sequences, by role: (_, seq1) = self.sub_sql1.to_with_form_stub(...); (_, seq2) = self.sub_sql2.to_with_form_stub(...)
+    from .. import pat
+    s1 = [e["_Q"] for (_n, e) in pat.find("_S, _Q = self.sub_sql1.to_with_form_stub()", b.node)]
+    s2 = [e["_Q"] for (_n, e) in pat.find("_S, _Q = self.sub_sql2.to_with_form_stub()", b.node)]
+    if not s1 or not s2:
+        raise AnalysisError("NearSQLBinaryStep.to_with_form: the two stub sequences were not found")
+    if order[:2] == [s1[0], s2[0]]:
         res.ok("C04-S2", "NearSQLBinaryStep.to_with_form concatenates the left sequence, then the right one")
     else:
         res.fail_at("C04-S2", b, "sequence-order", f"sequences merged in order {order}")
